@@ -363,8 +363,8 @@ HEX = [
     M('hex.mul10', 'hex/mul.fj', 'def mul10 n, x', 'hex.mul10 {n}, {a}', [('a', 'hex', 'n')], 'hex_mul10 {n}', inst=H1,
       seq='hex.mul10 {n}, {x}'),
     M('hex.add_mul', 'hex/mul.fj', 'def add_mul n, res, a, b', 'hex.add_mul {n}, {a}, {b}, {c}',
-      [('a', 'hex', 'n'), ('b', 'hex', 'n'), ('c', 'hex', '1')], 'hex_add_mul {n}',
-      inst={'quick': N_(1), 'thorough': N_(1), 'sample': N_(2, 4, 8)}, seq='hex.add_mul {n}, {z}, {x}, {y}'),
+      [('a', 'hex', 'n'), ('b', 'hex', 'n'), ('c', 'hex', '1')], 'hex_add_mul {n}', pin={'a': 0x9e},
+      inst={'quick': N_(1), 'thorough': N_(1) + N_(2, pin=1), 'sample': N_(2, 4, 8)}, seq='hex.add_mul {n}, {z}, {x}, {y}'),
     # ---- hex/div.fj
     M('hex.div', 'hex/div.fj', 'def div n, nb, q, r, a, b, div0', 'hex.div {n}, {nb}, {q}, {r}, {a}, {b}, {x1}',
       [('q', 'hex', 'n'), ('r', 'hex', 'nb'), ('a', 'hex', 'n'), ('b', 'hex', 'nb')], 'hex_div {n} {nb}', exits=1,
@@ -424,9 +424,11 @@ HEX = [
     M('hex.scmp', 'hex/cond_jumps.fj', 'def scmp n, a, b, lt, eq, gt', 'hex.scmp {n}, {a}, {b}, {x1}, {x2}, {x3}',
       [('a', 'hex', 'n'), ('b', 'hex', 'n')], 'hex_scmp {n}', exits=3, temps=[('ba', 'n'), ('bb', 'n')], inst=H2),
     M('hex.min', 'hex/cond_jumps.fj', 'def min n, dst, a, b', 'hex.min {n}, {a}, {b}, {c}',
-      [('a', 'hex', 'n'), ('b', 'hex', 'n'), ('c', 'hex', 'n')], 'hex_min {n}', inst=H3, seq='hex.min {n}, {z}, {x}, {y}'),
+      [('a', 'hex', 'n'), ('b', 'hex', 'n'), ('c', 'hex', 'n')], 'hex_min {n}', pin={'a': 0x5c},
+      inst=dict(H3, thorough=N_(1) + N_(2, pin=1, w=[64])), seq='hex.min {n}, {z}, {x}, {y}'),
     M('hex.max', 'hex/cond_jumps.fj', 'def max n, dst, a, b', 'hex.max {n}, {a}, {b}, {c}',
-      [('a', 'hex', 'n'), ('b', 'hex', 'n'), ('c', 'hex', 'n')], 'hex_max {n}', inst=H3, seq='hex.max {n}, {z}, {x}, {y}'),
+      [('a', 'hex', 'n'), ('b', 'hex', 'n'), ('c', 'hex', 'n')], 'hex_max {n}', pin={'a': 0x5c},
+      inst=dict(H3, thorough=N_(1) + N_(2, pin=1, w=[64])), seq='hex.max {n}, {z}, {x}, {y}'),
 ]
 
 
